@@ -16,6 +16,11 @@ CHECKS = {
             "Golden inputs of every schema version plus minimal and raw documents; every key path present plus every string literal of later steps placed under root and top-level objects, replaced by 9 shapes (1 deviation in quick, pairs in thorough); list-duplication variants; each migrated in one run and through every split point; no panic, error=>unchanged, stamped, idempotent, split-independent, unrelated key kept, loader accepts valid inputs.",
             "yaml.v3 round trip is faithful; validity under a document's own schema assumed only for golden inputs and their list-duplication variants; bcrypt hashes (random salt) compared as equal.",
             "DESIGN.md §4 C13", "E1-stateless"),
+    "C20": ("exploration",
+            "bounded exhaustive enumeration of file layouts on a scaled-constant build and a byte-by-byte boundary sweep on the real-constant build, reversed-lines and seek-classification oracles",
+            "Scaled build (maxEntrySize 64 / buffer 6400 substituted in a freshly copied qlogfile.go): every file of 0..5 (quick) / 0..7 (thorough) tail lines over 4 lengths x 5 filler prefixes x 3 gap patterns; every present and absent seek target on a reused reader object; rotated+current pairs at every split. Real build: 1.6 MB / 3.2 MB files with the tail length swept byte by byte so buffer boundaries visit every offset in a line.",
+            "the scaled build differs from the shipped source only in one constant; real-constant coverage is the boundary sweep, not all files; lines+newline < maxEntrySize.",
+            "DESIGN.md §4 C20", "E1-stateless"),
     "C18": ("exploration",
             "bounded exhaustive enumeration of (zone table x transition-day minute x range x weekday mask) against a wall-clock reference",
             "Every distinct zone transition table on the host, every minute (and +-1ns) of the local days before/of/after every DST transition in the window, 9 day ranges x 15 weekday masks, compared with a wall-clock reference; all serialised start/end combinations of a 10x10 grid in JSON and YAML for accept/reject, round trip and agreement. Exhaustive within those bounds.",
